@@ -827,6 +827,8 @@ func retains(v ssa.Value, depth int, seen map[ssa.Value]bool) string {
 				return "stored in a slice/array element"
 			case *ssa.Global:
 				return "stored in a global"
+			case *ssa.FreeVar:
+				return "stored in a variable of the enclosing function (" + a.Name() + ")"
 			case *ssa.Alloc:
 				if a.Referrers() != nil {
 					for _, r2 := range *a.Referrers() {
